@@ -6,6 +6,11 @@ ALL = ["C%02d" % i for i in range(1, 21)]
 
 # property -> dict(level, text, note, technique, engine, design_ref)
 CLAIMED = {
+  "C04": dict(level="exploration", engine="E1",
+    text="Bounded-exhaustive exploration of rule programs that share variable names: every operator (all/any/not, inside/has/precedes/follows x stopBy) applied to depth 2 (thorough: a slice of depth 3) over pattern atoms sharing $A/$B, plus matches-of-utility documents and constraints maps, on sources that contain every sequence (all permutations with repetition) of <= 3 (thorough 4) statements as siblings, arguments and nesting chains, so every 'failing candidate binds before the succeeding one' order exists. Verdict and bindings (by extent) on every node are compared with a reference evaluator that copies the environment on entry, so a failed alternative cannot leave a trace by construction. ~2.7e8 (document, node) evaluations in the quick tier.",
+    note="Pattern atoms inside the reference are the real Pattern matcher on a cloned environment; constraints that re-bind a bound name or are keyed by a constraint-bound name are outside the alphabet (statement silent; order dependence there is C13's subject).",
+    technique="bounded-exhaustive enumeration of rule programs x permuted inputs, differential against a copy-on-entry reference evaluator",
+    design_ref="DESIGN.md §3 C04, Appendix A.2"),
   "C01": dict(level="exploration", engine="E1",
     text="Bounded-exhaustive exploration: for every matcher (accepted patterns <= 3 tokens and cut patterns x 5 strictness, contextual patterns, kind matchers, rule cores to depth 2, utility graphs whose dependencies run through composite operators, relations, stopBy and nthChild.ofRule in all 3! registration orders) and every tree of token strings <= L: Node::find_all equals per-node brute force, every brute-force match has its kind inside potential_kinds, overlap-free traversal and replace_all equal the outermost filter, and CombinedScan (both modes, every subset <= 3 of a rule pool, both input orders) equals per-rule brute force. CLI layer: sg run/scan over a grid of (pattern, strictness, selector, files) compared with the library result on the same bytes, including files that lack the pattern's longest literal.",
     note="Brute force uses the matcher's own match_node, so a kind cache that is wrong inside a composite (All/Any/RuleCore) is C05's subject (reference evaluator), not this check's; hash seeds owned via the getrandom shim.",
